@@ -21,7 +21,10 @@ type funcVal struct {
 	recvFrame *frame
 }
 
-type val struct{ fn *funcVal }
+type val struct {
+	fn    *funcVal
+	alias []Loc // content locations this slice/map value refers to
+}
 
 type deferItem struct {
 	kind string // act | lit
@@ -41,8 +44,10 @@ type frame struct {
 	name     string
 	parent   *frame // lexical parent (closures)
 	binds    map[types.Object]*funcVal
-	ptrLocal map[types.Object]bool // pointer params bound to the address of a caller's local
-	alias    map[types.Object]Loc  // slice/map params (and locals derived from them) that refer to a field's memory
+	ptrLocal map[types.Object]bool  // pointer params bound to the address of a caller's local
+	alias    map[types.Object][]Loc // slice/map params and locals that refer to the content of a field
+	results  []types.Object         // named results
+	retAlias []Loc                  // content locations the returned slice/map values refer to
 	defers   []deferItem
 	exit     int
 	exitSet  bool
@@ -62,13 +67,30 @@ func (f *frame) lookup(o types.Object) *funcVal {
 	}
 	return nil
 }
-func (f *frame) aliasOf(o types.Object) (Loc, bool) {
+func (f *frame) aliasOf(o types.Object) ([]Loc, bool) {
 	for g := f; g != nil; g = g.parent {
-		if l, ok := g.alias[o]; ok {
+		if l, ok := g.alias[o]; ok && len(l) > 0 {
 			return l, true
 		}
 	}
-	return Loc{}, false
+	return nil, false
+}
+
+func addLocs(dst []Loc, src ...Loc) ([]Loc, bool) {
+	changed := false
+	for _, l := range src {
+		found := false
+		for _, d := range dst {
+			if d == l {
+				found = true
+			}
+		}
+		if !found {
+			dst = append(dst, l)
+			changed = true
+		}
+	}
+	return dst, changed
 }
 func (f *frame) isPtrLocal(o types.Object) bool {
 	for g := f; g != nil; g = g.parent {
@@ -89,6 +111,7 @@ type memoEnt struct {
 	entry, exit int
 	exitLS      Lockset
 	exitReached bool
+	retAlias    []Loc
 }
 
 type rootReq struct {
@@ -349,22 +372,24 @@ func (w *walker) expr(e ast.Expr) val {
 			return val{}
 		}
 		if o := info.ObjectOf(x); o != nil {
-			if l, ok := w.fr.aliasOf(o); ok {
-				w.rd(l, x.Pos())
-				return val{}
+			if ls, ok := w.fr.aliasOf(o); ok {
+				for _, l := range ls { // any mention of the alias counts as a read of the content
+					w.rd(l, x.Pos())
+				}
+				return val{alias: ls}
 			}
 			if fv := w.fr.lookup(o); fv != nil {
-				return val{fv}
+				return val{fn: fv}
 			}
 			if fn, ok := o.(*types.Func); ok && w.t.inPkg(fn) {
-				return val{&funcVal{kind: "decl", fn: fn}}
+				return val{fn: &funcVal{kind: "decl", fn: fn}}
 			}
 		}
 		return val{}
 	case *ast.ParenExpr:
 		return w.expr(x.X)
 	case *ast.FuncLit:
-		return val{&funcVal{kind: "lit", lit: x, lex: w.fr}}
+		return val{fn: &funcVal{kind: "lit", lit: x, lex: w.fr}}
 	case *ast.CompositeLit:
 		for _, el := range x.Elts {
 			if kv, ok := el.(*ast.KeyValueExpr); ok {
@@ -385,26 +410,31 @@ func (w *walker) expr(e ast.Expr) val {
 				return w.expr(x.X)
 			}
 		}
-		w.expr(x.X)
+		v := w.expr(x.X)
+		w.contentRead(x.X, v, x.Pos())
 		w.expr(x.Index)
+		if tv, ok := info.Types[x]; ok && isRefType(tv.Type) {
+			return val{alias: v.alias} // an inner slice/map is folded into the same content location
+		}
 		return val{}
 	case *ast.IndexListExpr:
 		return w.expr(x.X)
 	case *ast.SliceExpr:
 		if tv, ok := info.Types[x.X]; ok && tv.Type != nil {
 			if _, isArr := tv.Type.Underlying().(*types.Array); isArr {
-				w.storeInto(x.X, x.Pos()) // slicing an array takes its address
+				w.storeInto(x.X, x.Pos(), false) // slicing an array takes its address
 				w.expr(x.Low)
 				w.expr(x.High)
 				w.expr(x.Max)
-				return val{}
+				ls, _ := w.aliasRoot(x, true)
+				return val{alias: ls}
 			}
 		}
-		w.expr(x.X)
+		v := w.expr(x.X)
 		w.expr(x.Low)
 		w.expr(x.High)
 		w.expr(x.Max)
-		return val{}
+		return val{alias: v.alias}
 	case *ast.StarExpr:
 		w.expr(x.X)
 		return val{}
@@ -413,7 +443,7 @@ func (w *walker) expr(e ast.Expr) val {
 			if _, ok := unparen(x.X).(*ast.CompositeLit); ok {
 				return w.expr(x.X)
 			}
-			w.storeInto(x.X, x.Pos()) // address-taking of a field counts as a write
+			w.storeInto(x.X, x.Pos(), false) // address-taking of a field counts as a write
 			return val{}
 		}
 		if x.Op == token.ARROW {
@@ -478,12 +508,15 @@ func (w *walker) selector(x *ast.SelectorExpr) val {
 			w.fatal(x.Pos(), "field %s of synchronisation type used as a plain value", loc)
 		}
 		w.rd(loc, x.Sel.Pos())
+		if cl, ok := contentLoc(loc, sel.Type()); ok {
+			return val{alias: []Loc{cl}}
+		}
 		return val{}
 	case types.MethodVal:
 		w.expr(x.X)
 		fn := sel.Obj().(*types.Func)
 		if w.t.inPkg(fn) && !types.IsInterface(sel.Recv()) {
-			return val{&funcVal{kind: "decl", fn: fn, recv: x.X, recvFrame: w.fr}}
+			return val{fn: &funcVal{kind: "decl", fn: fn, recv: x.X, recvFrame: w.fr}}
 		}
 		return val{}
 	}
@@ -491,9 +524,37 @@ func (w *walker) selector(x *ast.SelectorExpr) val {
 	return val{}
 }
 
-// storeInto records a write to the memory denoted by e (assignment target, element store,
-// address-taking): the field at the bottom of the index/slice spine is written.
-func (w *walker) storeInto(e ast.Expr, p token.Pos) {
+// contentLoc: the location standing for the memory a slice- or map-typed field refers to
+// (an array-typed field holds its elements itself).
+func contentLoc(field Loc, t types.Type) (Loc, bool) {
+	if t == nil {
+		return Loc{}, false
+	}
+	switch t.Underlying().(type) {
+	case *types.Slice, *types.Map:
+		return Loc{field.T, field.F + "[*]"}, true
+	case *types.Array:
+		return field, true
+	}
+	return Loc{}, false
+}
+
+// contentRead: an element read / iteration / map length on value v (expression e): a read of the
+// content it refers to.  Plain identifiers already recorded it when they were mentioned.
+func (w *walker) contentRead(e ast.Expr, v val, p token.Pos) {
+	if _, isId := unparen(e).(*ast.Ident); isId {
+		return
+	}
+	for _, l := range v.alias {
+		w.rd(l, p)
+	}
+}
+
+// storeInto records a write to the memory denoted by e.  elem = false: e itself is assigned
+// (x.f = v, &x.f); elem = true: an element of e is stored (x.f[i] = v, delete, copy, clear,
+// append into, a callee writing through the slice): for slice/map fields and for local aliases
+// of them that is a write of the CONTENT location, with the locks held here.
+func (w *walker) storeInto(e ast.Expr, p token.Pos, elem bool) {
 	info := w.t.l.info
 	switch x := unparen(e).(type) {
 	case *ast.Ident:
@@ -505,12 +566,18 @@ func (w *walker) storeInto(e ast.Expr, p token.Pos) {
 			return
 		}
 		if o := info.ObjectOf(x); o != nil {
-			if l, ok := w.fr.aliasOf(o); ok {
-				w.wr(l, p)
+			if ls, ok := w.fr.aliasOf(o); ok {
+				if elem {
+					for _, l := range ls {
+						w.wr(l, p)
+					}
+				}
 				return
 			}
 		}
-		w.checkCapturedWrite(x)
+		if !elem {
+			w.checkCapturedWrite(x)
+		}
 	case *ast.SelectorExpr:
 		sel := info.Selections[x]
 		if sel == nil {
@@ -530,7 +597,7 @@ func (w *walker) storeInto(e ast.Expr, p token.Pos) {
 			if tv, ok2 := info.Types[ix]; ok2 && tv.Type != nil {
 				if _, isStruct := tv.Type.Underlying().(*types.Struct); isStruct {
 					w.expr(ix.Index)
-					w.storeInto(ix.X, p)
+					w.storeInto(ix.X, p, true)
 					if in {
 						w.wr(loc, p)
 					}
@@ -543,19 +610,23 @@ func (w *walker) storeInto(e ast.Expr, p token.Pos) {
 			if k := syncKind(sel.Type()); k != "" {
 				w.fatal(p, "address of / store into synchronisation field %s", loc)
 			}
+			if cl, ok := contentLoc(loc, sel.Type()); ok && elem && cl != loc {
+				w.rd(loc, p) // the header is read, the content is written
+				w.wr(cl, p)
+				return
+			}
 			w.wr(loc, p)
 		}
 	case *ast.IndexExpr:
 		w.expr(x.Index)
-		w.storeInto(x.X, p)
+		w.storeInto(x.X, p, true)
 	case *ast.SliceExpr:
 		w.expr(x.Low)
 		w.expr(x.High)
 		w.expr(x.Max)
-		w.storeInto(x.X, p)
+		w.storeInto(x.X, p, true)
 	case *ast.StarExpr:
-		// *p = v : p must be a pointer to a local of some caller (bound at inlining) or the
-		// pointer navigation itself is recorded by expr
+		// *p = v : p must be a pointer to a local of some caller (bound at inlining)
 		if id, ok := unparen(x.X).(*ast.Ident); ok {
 			if o := info.ObjectOf(id); o != nil && w.fr.isPtrLocal(o) {
 				return
@@ -563,7 +634,14 @@ func (w *walker) storeInto(e ast.Expr, p token.Pos) {
 			w.fatal(p, "store through pointer %s whose target is unknown", id.Name)
 		}
 		w.expr(x.X)
-	case *ast.CompositeLit, *ast.CallExpr, *ast.TypeAssertExpr, *ast.BasicLit, *ast.BinaryExpr, *ast.UnaryExpr, *ast.FuncLit:
+	case *ast.CallExpr:
+		v := w.expr(x)
+		if elem {
+			for _, l := range v.alias {
+				w.wr(l, p)
+			}
+		}
+	case *ast.CompositeLit, *ast.TypeAssertExpr, *ast.BasicLit, *ast.BinaryExpr, *ast.UnaryExpr, *ast.FuncLit:
 		w.expr(x)
 	default:
 		w.fatal(p, "unsupported store target %T", x)
@@ -586,10 +664,10 @@ func (w *walker) checkCapturedWrite(id *ast.Ident) {
 	}
 }
 
-// aliasRoot: the field whose memory a slice/map expression refers to, when that is syntactically
-// evident: a parameter (or a local derived from one) bound to a field's memory, or - for
-// arguments of calls (viaField) - a field selector itself, possibly sliced or indexed.
-func (w *walker) aliasRoot(e ast.Expr, viaField bool) (Loc, bool) {
+// aliasRoot: the content location(s) a slice/map expression refers to, when that is syntactically
+// evident: a parameter or local known to refer to a field's content, or (viaField) a field
+// selector itself, possibly sliced or indexed.
+func (w *walker) aliasRoot(e ast.Expr, viaField bool) ([]Loc, bool) {
 	info := w.t.l.info
 	for {
 		switch x := unparen(e).(type) {
@@ -603,22 +681,25 @@ func (w *walker) aliasRoot(e ast.Expr, viaField bool) (Loc, bool) {
 			if o := info.ObjectOf(x); o != nil {
 				return w.fr.aliasOf(o)
 			}
-			return Loc{}, false
+			return nil, false
 		case *ast.SelectorExpr:
 			if !viaField {
-				return Loc{}, false
+				return nil, false
 			}
 			sel := info.Selections[x]
 			if sel == nil || sel.Kind() != types.FieldVal || w.t.isLocalStructVar(x.X) {
-				return Loc{}, false
+				return nil, false
 			}
 			loc, in := w.t.fieldOwner(sel)
 			if !in {
-				return Loc{}, false
+				return nil, false
 			}
-			return loc, true
+			if cl, ok := contentLoc(loc, sel.Type()); ok {
+				return []Loc{cl}, true
+			}
+			return nil, false
 		default:
-			return Loc{}, false
+			return nil, false
 		}
 	}
 }
@@ -658,12 +739,22 @@ func (w *walker) extArgs(name string, c *ast.CallExpr) {
 		}
 		if written {
 			if _, ok := w.aliasRoot(a, true); ok {
-				w.storeInto(a, c.Pos())
+				w.storeInto(a, c.Pos(), true)
 				continue
 			}
 		}
-		w.escapingValue(a)
+		w.extValue(a)
 	}
+}
+
+// extValue: a value handed to code outside the package; a slice/map that refers to a field's
+// content is read there
+func (w *walker) extValue(a ast.Expr) {
+	v := w.expr(a)
+	if v.fn != nil && v.fn.kind == "lit" {
+		w.inlineLit(v.fn, nil, a.Pos())
+	}
+	w.contentRead(a, v, a.Pos())
 }
 
 // ---------------------------------------------------------------------------------- calls
@@ -968,19 +1059,38 @@ func lookupMethod(nt *types.Named, name string) *types.Func {
 func (w *walker) builtin(name string, c *ast.CallExpr) val {
 	switch name {
 	case "append":
-		w.exprs(c.Args)
+		// append may write into the spare capacity of its first argument
+		v := w.expr(c.Args[0])
+		for _, l := range v.alias {
+			w.wr(l, c.Pos())
+		}
+		for _, a := range c.Args[1:] {
+			va := w.expr(a)
+			if c.Ellipsis.IsValid() {
+				w.contentRead(a, va, a.Pos())
+			}
+		}
+		return val{alias: v.alias}
 	case "copy":
-		w.storeInto(c.Args[0], c.Pos())
-		w.expr(c.Args[1])
+		w.storeInto(c.Args[0], c.Pos(), true)
+		v := w.expr(c.Args[1])
+		w.contentRead(c.Args[1], v, c.Pos())
 	case "delete":
 		w.expr(c.Args[1])
-		w.storeInto(c.Args[0], c.Pos())
+		w.storeInto(c.Args[0], c.Pos(), true)
 	case "clear":
-		w.storeInto(c.Args[0], c.Pos())
+		w.storeInto(c.Args[0], c.Pos(), true)
+	case "len", "cap":
+		v := w.expr(c.Args[0])
+		if tv, ok := w.t.l.info.Types[c.Args[0]]; ok && tv.Type != nil {
+			if _, isMap := tv.Type.Underlying().(*types.Map); isMap {
+				w.contentRead(c.Args[0], v, c.Pos()) // len of a map reads the map itself
+			}
+		}
 	case "close":
 		w.expr(c.Args[0])
 		w.tau(c.Pos())
-	case "len", "cap", "make", "new", "min", "max", "print", "println", "complex", "real", "imag":
+	case "make", "new", "min", "max", "print", "println", "complex", "real", "imag":
 		w.exprs(c.Args)
 	case "panic":
 		w.exprs(c.Args)
@@ -1025,10 +1135,10 @@ func (w *walker) external(q string, c *ast.CallExpr) val {
 				continue
 			}
 			if _, ok := w.aliasRoot(a, true); ok && k == 0 {
-				w.storeInto(a, c.Pos())
+				w.storeInto(a, c.Pos(), true)
 				continue
 			}
-			w.escapingValue(a)
+			w.extValue(a)
 		}
 		w.tau(c.Pos())
 		return val{}
@@ -1043,11 +1153,12 @@ func (w *walker) external(q string, c *ast.CallExpr) val {
 		}
 		if written {
 			if _, ok := w.aliasRoot(a, true); ok {
-				w.storeInto(a, c.Pos())
+				w.storeInto(a, c.Pos(), true)
 				continue
 			}
 		}
 		v := w.expr(a)
+		w.contentRead(a, v, a.Pos())
 		if v.fn != nil {
 			if v.fn.kind == "lit" {
 				w.inlineLit(v.fn, nil, a.Pos())
@@ -1063,8 +1174,8 @@ func (w *walker) external(q string, c *ast.CallExpr) val {
 // storeIntoIfField: the callee writes through this slice argument
 func (w *walker) storeIntoIfField(e ast.Expr, p token.Pos) {
 	switch x := unparen(e).(type) {
-	case *ast.SliceExpr, *ast.IndexExpr, *ast.SelectorExpr:
-		w.storeInto(x, p)
+	case *ast.SliceExpr, *ast.IndexExpr, *ast.SelectorExpr, *ast.Ident:
+		w.storeInto(x, p, true)
 	default:
 		w.expr(e)
 	}
@@ -1213,7 +1324,7 @@ func (w *walker) inlineDecl(fn *types.Func, recv ast.Expr, recvFrame *frame, arg
 		w.ctorSwitch()
 		fvs[0] = nil
 	}
-	fr := &frame{name: key, binds: map[types.Object]*funcVal{}, ptrLocal: map[types.Object]bool{}, alias: map[types.Object]Loc{}, labels: map[string]int{}}
+	fr := &frame{name: key, binds: map[types.Object]*funcVal{}, ptrLocal: map[types.Object]bool{}, alias: map[types.Object][]Loc{}, labels: map[string]int{}}
 	memoable := !w.mute
 	aliasKey := ""
 	// bind parameters
@@ -1229,9 +1340,9 @@ func (w *walker) inlineDecl(fn *types.Func, recv ast.Expr, recvFrame *frame, arg
 				memoable = false
 			}
 			if isRefType(po.Type()) {
-				if loc, ok := w.aliasRoot(args[i], true); ok {
-					fr.alias[po] = loc
-					aliasKey += fmt.Sprintf("|a%d=%s", i, loc)
+				if locs, ok := w.aliasRoot(args[i], true); ok {
+					fr.alias[po] = locs
+					aliasKey += fmt.Sprintf("|a%d=%v", i, locs)
 				}
 			}
 		}
@@ -1260,7 +1371,7 @@ func (w *walker) inlineDecl(fn *types.Func, recv ast.Expr, recvFrame *frame, arg
 			w.s = st{node: m.exit, ls: m.exitLS}
 			w.tauTo(cont, c.Pos(), "return from "+key)
 			w.s = st{node: cont, ls: m.exitLS}
-			return val{}
+			return val{alias: m.retAlias}
 		}
 	}
 	var ent *memoEnt
@@ -1280,17 +1391,24 @@ func (w *walker) inlineDecl(fn *types.Func, recv ast.Expr, recvFrame *frame, arg
 		fr.ctorMode = "rest"
 		w.mute = true
 	}
+	if d.Type.Results != nil {
+		for _, f := range d.Type.Results.List {
+			for _, n := range f.Names {
+				fr.results = append(fr.results, w.t.l.info.Defs[n])
+			}
+		}
+	}
 	w.runFrame(fr, d.Body, key)
 	w.mute = savedMute
 	if ent != nil {
-		ent.exit, ent.exitLS, ent.exitReached = fr.exit, fr.exitLS, fr.exitSet
+		ent.exit, ent.exitLS, ent.exitReached, ent.retAlias = fr.exit, fr.exitLS, fr.exitSet, fr.retAlias
 		if fr.exitSet {
 			cont := w.r.newNode(fr.exitLS)
 			w.tauTo(cont, c.Pos(), "return from "+key)
 			w.s = st{node: cont, ls: fr.exitLS}
 		}
 	}
-	return val{}
+	return val{alias: fr.retAlias}
 }
 
 func paramObjs(info *types.Info, d *ast.FuncDecl) []types.Object {
@@ -1339,6 +1457,7 @@ func (w *walker) runFrame(fr *frame, body *ast.BlockStmt, name string) {
 	w.fr = fr
 	w.stack = append(w.stack, name)
 	w.r.Funcs[name] = true
+	w.collectAliases(body)
 	w.block(body.List, true)
 	if !w.s.dead {
 		w.doReturn(body.Rbrace)
@@ -1362,7 +1481,7 @@ func (w *walker) inlineLit(fv *funcVal, c *ast.CallExpr, p token.Pos) val {
 			w.fatal(p, "recursive closure %s", name)
 		}
 	}
-	fr := &frame{name: name, parent: fv.lex, binds: map[types.Object]*funcVal{}, ptrLocal: map[types.Object]bool{}, alias: map[types.Object]Loc{}, labels: map[string]int{}}
+	fr := &frame{name: name, parent: fv.lex, binds: map[types.Object]*funcVal{}, ptrLocal: map[types.Object]bool{}, alias: map[types.Object][]Loc{}, labels: map[string]int{}}
 	if c != nil {
 		i := 0
 		for _, f := range fv.lit.Type.Params.List {
@@ -1431,4 +1550,118 @@ func (w *walker) ctorSwitch() {
 			return
 		}
 	}
+}
+
+// ---------------------------------------------------------------------------------- local aliases
+
+// sameFieldExpr: two expressions denote the same field of the same syntactic base
+func (w *walker) sameFieldExpr(a, b ast.Expr) bool {
+	sa, ok1 := unparen(a).(*ast.SelectorExpr)
+	sb, ok2 := unparen(b).(*ast.SelectorExpr)
+	if !ok1 || !ok2 {
+		return false
+	}
+	s1, s2 := w.t.l.info.Selections[sa], w.t.l.info.Selections[sb]
+	if s1 == nil || s2 == nil || s1.Obj() != s2.Obj() {
+		return false
+	}
+	return types.ExprString(sa.X) == types.ExprString(sb.X)
+}
+
+func rootIdent(e ast.Expr) *ast.Ident {
+	for {
+		switch x := unparen(e).(type) {
+		case *ast.SliceExpr:
+			e = x.X
+		case *ast.IndexExpr:
+			e = x.X
+		case *ast.Ident:
+			return x
+		default:
+			return nil
+		}
+	}
+}
+
+// collectAliases: flow-insensitive pre-pass over a function body.  A local assigned from a
+// slice/map-typed field (x := r.f, x = r.f[a:b], x := y with y such a local, a range value of
+// slice/map type) refers to the field's CONTENT for the whole function: every later element
+// access through it is an access to that content location with the locks held at that point.
+//
+// Exchange idiom (ownership transfer): in one parallel assignment  a, r.f = r.f, <expr rooted at a>
+// the local a takes over the old content while the field receives the buffer the local owned
+// before; the old content is no longer reachable through the field, so a does NOT become an
+// alias (the header write r.f = ... is recorded and must satisfy the discipline like any other,
+// which puts the exchange inside the critical sections that guard the content).
+func (w *walker) collectAliases(body *ast.BlockStmt) {
+	info := w.t.l.info
+	fr := w.fr
+	bind := func(id *ast.Ident, rhs ast.Expr) bool {
+		if id == nil || id.Name == "_" {
+			return false
+		}
+		o := info.ObjectOf(id)
+		v, isVar := o.(*types.Var)
+		if !isVar || v.IsField() || v.Parent() == w.t.l.pkg.Scope() || !isRefType(v.Type()) {
+			return false
+		}
+		locs, ok := w.aliasRoot(rhs, true)
+		if !ok {
+			return false
+		}
+		var ch bool
+		fr.alias[o], ch = addLocs(fr.alias[o], locs...)
+		return ch
+	}
+	for iter := 0; iter < 8; iter++ {
+		changed := false
+		ast.Inspect(body, func(n ast.Node) bool {
+			switch x := n.(type) {
+			case *ast.AssignStmt:
+				if len(x.Lhs) != len(x.Rhs) {
+					return true
+				}
+				for i, l := range x.Lhs {
+					id, _ := unparen(l).(*ast.Ident)
+					if id == nil {
+						continue
+					}
+					// exchange idiom
+					detached := false
+					for j, l2 := range x.Lhs {
+						if j != i && w.sameFieldExpr(l2, x.Rhs[i]) {
+							if r := rootIdent(x.Rhs[j]); r != nil && info.ObjectOf(r) == info.ObjectOf(id) {
+								detached = true
+							}
+						}
+					}
+					if detached {
+						continue
+					}
+					if bind(id, x.Rhs[i]) {
+						changed = true
+					}
+				}
+			case *ast.ValueSpec:
+				if len(x.Names) == len(x.Values) {
+					for i, nme := range x.Names {
+						if bind(nme, x.Values[i]) {
+							changed = true
+						}
+					}
+				}
+			case *ast.RangeStmt:
+				if id, ok := x.Value.(*ast.Ident); ok && x.Value != nil {
+					if bind(id, x.X) {
+						changed = true
+					}
+				}
+			}
+			return true
+		})
+		if !changed {
+			return
+		}
+	}
+	w.fatal(body.Pos(), "alias propagation did not reach a fixed point")
 }
